@@ -138,6 +138,9 @@ def cond_near_field_grid (self, start, inc, nvec):
     tot = n [0] * n [1] * n [2]
     c   = np.asarray (self.near_field_coord)
     ne, nh = len (self.e_field), len (self.h_field)
+    if getattr (self, '_pmv_stub', False):
+        # grid-only mode of C16: field evaluation stubbed out for large grids
+        ne = nh = tot
     if c.shape != (3, tot) or ne != tot or nh != tot:
         raise Contract_Broken \
             ( 'C16', 'compute_near_field.grid'
